@@ -1,6 +1,7 @@
 package taskpool
 
 import (
+	"runtime"
 	"sync"
 )
 
@@ -43,6 +44,15 @@ func (tp *IOTaskPool) Stop() {
 //
 //go:norace
 func NewIO(concurrent, queueSize, bufSize int, v ...interface{}) *IOTaskPool {
+	if concurrent <= 0 {
+		concurrent = runtime.NumCPU() * 2
+	}
+	if queueSize <= 0 {
+		queueSize = 1024
+	}
+	if bufSize <= 0 {
+		bufSize = 1024 * 64
+	}
 	task := New(concurrent, queueSize, v...)
 
 	tp := &IOTaskPool{
